@@ -7,3 +7,7 @@ import Sml.Props.C14
 #print axioms Sml.C14.pushAll_append
 #print axioms Sml.C14.concat
 #print axioms Sml.C14.fromBuf_eq_fresh
+#print axioms Sml.C14.step_new
+#print axioms Sml.C14.step_fromBuf
+#print axioms Sml.C14.new_restarts
+#print axioms Sml.C14.fromBuf_restarts
